@@ -136,6 +136,15 @@ def IKids.pathTo? : IKids β → Nat → Nat → Nat → Option (List (Nat × Na
     | none => r.pathTo? p (l+1) i
 end
 
+/-- `path_to_node`: follow `parent()` until the root, collecting `(parent, label)`; the code reverses the list -/
+def ITree.pathUp (t : ITree β) : Nat → Nat → List (Nat × Nat)
+  | 0, _ => []
+  | fuel+1, i =>
+    match t.parentOf? i with
+    | none => []
+    | some (p, l) => (p, l) :: ITree.pathUp t fuel p
+
+
 /-! ### arena view -/
 
 structure ANode (β : Type) where
